@@ -23,17 +23,18 @@ def _patch_protein_termini(meta_molecule, ter_mods=['N-ter', 'C-ter']):
     """
     make a resspec for a protein with correct terminal modification
     """
-    protein_termini = [({'resid': 1, 'resname': meta_molecule.nodes[0]['resname']}, ter_mods[0])]
-    max_resid = meta_molecule.max_resid
-    last_node = max_resid - 1
-    last_resname = meta_molecule.nodes[last_node]['resname']
+    by_resid = {meta_molecule.nodes[node]['resid']: node for node in meta_molecule.nodes}
+    first_resid, max_resid = min(by_resid), max(by_resid)
+    first_resname = meta_molecule.nodes[by_resid[first_resid]]['resname']
+    protein_termini = [({'resid': first_resid, 'resname': first_resname}, ter_mods[0])]
+    last_resname = meta_molecule.nodes[by_resid[max_resid]]['resname']
     if len(ter_mods) > 1:
         last_mod = ({'resid': max_resid, 'resname': last_resname}, ter_mods[1])
         protein_termini.append(last_mod)
     else:
         # if only one mod in ter_mods, apply the mod to both start and end residue
         LOGGER.info("Only one terminal modification specified. "
-                    f"Will apply {ter_mods[0]} to both {meta_molecule.nodes[0]['resname']}1 and {last_resname}{max_resid}")
+                    f"Will apply {ter_mods[0]} to both {first_resname}{first_resid} and {last_resname}{max_resid}")
         protein_termini.append(({'resid': max_resid, 'resname': last_resname}, ter_mods[0]))
 
     return protein_termini
@@ -74,7 +75,8 @@ def apply_mod(meta_molecule, modifications):
             else:
                 mod_atoms[mod_atom['atomname']] = {}
 
-        target_residue = meta_molecule.nodes[target_resid - 1]
+        by_resid = {meta_molecule.nodes[node]['resid']: node for node in meta_molecule.nodes}
+        target_residue = meta_molecule.nodes[by_resid[target_resid]]
         # takes care to skip all residues that come from an itp file
         if not target_residue.get('from_itp', 'False'):
             LOGGER.warning("meta_molecule has come from itp. Will not attempt to modify.")
